@@ -147,6 +147,22 @@ def execute(chooser, ops, profile, board_kwargs=None):
                 elif ret.strip() != expect.strip() or ret == "":
                     viols.append((f"data:{ckey}", f"{where}: returned {ret!r}, the data line "
                                   f"of this request is {expect!r}"))
+        if raised is None and kind == "query" and isinstance(ret, str) and not env_ok:
+            # "the data line belonging to that request, or an empty string when nothing arrived":
+            # once this request has read its own, unaltered data line, a fault that follows (an
+            # exception or silence while waiting for the trailing OK) does not un-arrive it
+            expect = board_expected(board, req_0, one_kwargs)
+            mine = [ln for ln in port.produced if ln.req == req_0 + 1]
+            arrived = expect is not None and bool(mine) and not mine[0].mutated and \
+                mine[0].orig_delay <= MAXLAT and mine[0].text == expect and any(
+                    p == c == req_0 + 1 and t == expect for (p, c, t) in port.ledger[led_0:])
+            clean_before = all(p == c for (p, c, _t) in port.ledger[:led_0]) and \
+                not any(ln.req <= req_0 for ln in port.queue)
+            if arrived and clean_before and port.ledger[led_0][:2] == (req_0 + 1, req_0 + 1) \
+                    and port.ledger[led_0][2] == expect and ret.strip() != expect.strip():
+                viols.append((f"arrived:{ckey}", f"{where}: the data line {expect!r} of this "
+                              f"request had been read when the fault came, but query returned "
+                              f"{ret!r}"))
         if raised is None and kind == "query" and isinstance(ret, str) and not produced \
                 and op_env_ok and not port.ledger[led_0:]:
             if ret != "":
